@@ -1,3 +1,61 @@
-From V Require Import Bytes.
-Theorem C04_placeholder : True. Proof. exact I. Qed.
-Print Assumptions C04_placeholder.
+(* Properties_C04.v — C04: client and server agree: what the caller sets is what the handler gets.
+   Theorems only. They compose the models of the client (C10: url.PathEscape / QueryEscape, Lib/UrlEscape.v) and of the
+   server (C01/C05: cleaning, trie routing, unescaping of captured texts, Model/SpecRouter*.v).
+   PARTIAL: headers, multipart documents, body codecs and the response path are tied by the correspondence run
+   (real client -> wire -> real middleware -> response reader) only; so are repeated query/form values as lists
+   (url.Values.Encode and url.ParseQuery are not modelled as a pair). *)
+From V Require Import Bytes PathCleanLib SpecRouter SpecRouterSpec SpecRouterSegs SpecRouterSegDispatch RoundTrip RoundTripProofs.
+From V Require UrlEscape PathUnescapeLib.
+
+(* PATH VALUES. For every API description whose templates are simple (every placeholder a whole segment), every
+   operation r of it, every method spelling m that is r's method up to case, and every tuple of values that are byte
+   strings, not empty and not dot segments: the request path the client builds (placeholders replaced by the
+   percent-escaped values) is routed by the server to r's handler, which receives exactly the supplied values by
+   name — whatever reserved bytes they contain (slash, percent, colon, star, hash, question mark, braces, space,
+   non-ASCII). The one proviso is spelled out: no other operation under the same method is preferred for those
+   very segments, i.e. the value does not coincide with a literal sibling segment (the router prefers literals). *)
+Theorem C04_path_roundtrip : forall base routes ts_of,
+  simple_view base routes ts_of -> plain_routes base routes = true ->
+  forall r m vals p,
+  In r routes -> under m r ->
+  forallb value_ok vals = true ->
+  client_path (ts_of r) vals = Some p ->
+  (forall segs, inst (ts_of r) vals = Some segs ->
+     forall r', In r' routes -> under m r' -> seg_match (ts_of r') segs <> None ->
+       tshape (ts_of r') = tshape (ts_of r) \/ seg_pref_b (ts_of r) (ts_of r') = true) ->
+  serve base routes m p = Run (r_id r) (combine (tpl_names (ts_of r)) vals).
+Proof. exact path_roundtrip. Qed.
+Print Assumptions C04_path_roundtrip.
+
+(* the pieces the round trip rests on *)
+Theorem C04_escaped_value_is_one_plain_segment : forall v, value_ok v = true ->
+  plain_seg (UrlEscape.path_escape v) = true.
+Proof. exact escape_plain_seg. Qed.
+Print Assumptions C04_escaped_value_is_one_plain_segment.
+
+Theorem C04_server_unescape_inverts_client_escape : forall v, UrlEscape.wf_bytes v ->
+  PathUnescapeLib.unescape_or_raw (UrlEscape.path_escape v) = v.
+Proof. exact unescape_or_raw_escape. Qed.
+Print Assumptions C04_server_unescape_inverts_client_escape.
+
+Theorem C04_client_path_is_already_clean : forall segs, forallb plain_seg segs = true ->
+  clean (render_path segs) = render_path segs.
+Proof. exact clean_render_path. Qed.
+Print Assumptions C04_client_path_is_already_clean.
+
+(* the two models of url.PathUnescape used by C01 and C10 are one function *)
+Theorem C04_unescape_models_agree : forall s, PathUnescapeLib.path_unescape s = UrlEscape.path_unescape s.
+Proof. exact unescape_agree. Qed.
+Print Assumptions C04_unescape_models_agree.
+
+(* QUERY AND FORM VALUES. url.QueryUnescape inverts url.QueryEscape on every byte string, and an escaped value
+   contains none of the bytes that delimit pairs (ampersand, equals, semicolon), start a fragment or query, or a space *)
+Theorem C04_query_value_roundtrip : forall v, UrlEscape.wf_bytes v ->
+  UrlEscape.query_unescape (UrlEscape.query_escape v) = Some v.
+Proof. exact query_unescape_escape. Qed.
+Print Assumptions C04_query_value_roundtrip.
+
+Theorem C04_query_value_cannot_split_a_pair : forall v, UrlEscape.wf_bytes v ->
+  forallb query_safe (UrlEscape.query_escape v) = true.
+Proof. exact query_escape_safe. Qed.
+Print Assumptions C04_query_value_cannot_split_a_pair.
